@@ -25,6 +25,11 @@ def _dag(rng, n, shape):
     elif shape == "fanout":
         for i in range(1, n):
             deps[names[i]] = [names[0]]
+    elif shape == "fanfail" and n >= 5:
+        # X (fails) and S (slow) block k flagged jobs; a tail job behind them waits for S only
+        for i in range(2, n - 1):
+            deps[names[i]] = [names[0], names[1]]
+        deps[names[n - 1]] = [names[1]]
     elif shape == "tri":
         # triples A <- B, {A, B} <- C: a job with two blockers one of which depends on the other
         for i in range(0, n - 2, 3):
